@@ -116,7 +116,52 @@ def run(ctx):
     ctx.step(who, ctx)
     ctx.step(common.init_order, ctx, "C03.init", [LR], floor=4)
     ctx.step(initial_state, ctx)
+    ctx.step(own_functors, ctx)
     ctx.step(common.witnesses, ctx, "C03.witness", ["C03"])
+
+
+def own_functors(ctx, rid="C03.same-twice"):
+    """modify() applies its functor once to each copy and the two copies must end equal.  A caller's functor is the
+    caller's business (the documentation asks for a repeatable one); a functor the LIBRARY writes - cow_guarded's commit,
+    an assignment or swap expressed through modify() - must compute the same thing both times: it may use its parameter,
+    values it captured by copy and constants, but it must not look at shared state again (take another read handle, load
+    an atomic, read through a captured reference to an object other threads can change)."""
+    ctx.rule(rid, "closures the library itself hands to lr_guarded::modify do not re-read shared state", floor=1)
+    fb = ctx.fb
+    n = 0
+    READERS = ("lock_shared", "try_lock_shared", "try_lock_shared_for", "try_lock_shared_until", "lock", "try_lock", "load", "read",
+               "lock_read", "lock_write")
+    for f in fb.functions():
+        if not f.file.endswith(("/lr_guarded.hpp", "/cow_guarded.hpp")):
+            continue
+        for st in f.stmts.values():
+            if st["k"] != "CXXMemberCallExpr" or (st.get("callee") or {}).get("name") != "modify" or \
+                    (st.get("callee") or {}).get("rec") != LR or not st["args"]:
+                continue
+            lam = unwrap(f, f.s(st["args"][0]))
+            while lam is not None and lam["k"] in CTORS and len(lam["args"]) == 1:
+                lam = unwrap(f, f.s(lam["args"][0]))
+            if lam is None or lam["k"] != "LambdaExpr":
+                continue
+            for oid in lam.get("call_ops", []):
+                g = f.unit.fn_by_id.get(oid)
+                if g is None:
+                    continue
+                n += 1
+                bad = None
+                for s2 in g.stmts.values():
+                    c = s2.get("callee") or {}
+                    if s2["k"] == "CXXMemberCallExpr" and c.get("inrepo") and c.get("name") in READERS:
+                        bad = "%s() at %s" % (c.get("name"), g.loc(s2))
+                    elif s2["k"] == "CXXMemberCallExpr" and c.get("name") in ("load", "exchange", "fetch_add", "fetch_sub") and \
+                            re.match(r"^(const )?std::atomic", (g.s(s2.get("obj")) or {}).get("t", "")):
+                        bad = "atomic %s() at %s" % (c.get("name"), g.loc(s2))
+                ctx.ob(rid, bad is None, f.loc(st), "the functor %s hands to modify() computes the same value on both applications" % f.name,
+                       "" if bad is None else "it reads shared state again (%s): between the two applications that state can change, and "
+                       "the two copies end up different - readers then see the value flip back and forth with every later modify()" % bad,
+                       fn=f.label, inst=f.qname)
+    if n == 0:
+        ctx.broken("no library-written functor is handed to lr_guarded::modify (cow_guarded's commit not found: anchor vanished)")
 
 
 def opposite(rl):
@@ -644,9 +689,8 @@ def lr_handlers(ctx, rid="C20.lr"):
 
 
 
-def initial_state(ctx):
+def initial_state(ctx, rid="C03.initial"):
     """both copies start equal: the second copy is constructed from the first"""
-    rid = "C03.initial"
     ctx.rule(rid, "lr_guarded's constructor builds the second copy from the first (both copies start equal) and starts "
              "with both reader counters at zero", floor=4)
     WIDE = ("int", "unsigned int", "long", "unsigned long", "long long", "unsigned long long")
@@ -667,6 +711,8 @@ def initial_state(ctx):
     for f in ctx.fb.functions(rec=LR):
         if f.kind != "ctor" or f.defaulted:
             continue
+        if any(i.get("delegating") for i in f.inits):
+            continue        # the constructor it delegates to builds the members and is judged here as well
         ini = {i.get("field"): f.s(i.get("init")) for i in f.inits if i.get("field")}
         r = unwrap(f, ini.get("m_right"))
         l = unwrap(f, ini.get("m_left"))
@@ -682,5 +728,11 @@ def initial_state(ctx):
             while e is not None and e["k"] in CTORS and len(e["args"]) == 1:
                 e = unwrap(f, f.s(e["args"][0]))
             ok = e is not None and e["k"] == "IntegerLiteral" and e["v"] == 0
+            if e is None and c not in ini:
+                # no initialiser in this constructor: the default member initialiser decides
+                for r_ in recs:
+                    fl = r_.field(c)
+                    dv = (fl or {}).get("init_value")
+                    ok = ok or dv == 0
             ctx.ob(rid, ok, f.where, "%s starts at zero" % c, "" if ok else "a phantom reader is registered forever: every modify() hangs",
                    fn=f.label, inst=f.qname)
